@@ -26,7 +26,7 @@ const SPEC: Spec = Spec {
         "std DefaultHasher (SipHash with fixed keys) stands for 'hash identically'",
         "quickcheck Gen::new (entropy-seeded) is not called; Gen::from_size_and_seed is enumerated instead",
     ],
-    bounds_quick: "BigInt and BigUint models: depth 3 from all initial constructions (13 values x 5 construction ways (incl. small and large slack capacity) + inconsistent sign/magnitude requests), ~75 actions per state; generators: arbitrary over all byte strings {00,01,ff}^<=8, quickcheck (size<=8, seed<1024), shrink of the pool, serde_json sequences {0,1,2^32-1}^<=6 x signs, rand word streams {0,1,2^31,2^32-1}^<=3 x bit sizes/bounds; constructors in 13 radices x zero paddings up to 130 digits",
+    bounds_quick: "BigInt and BigUint models: depth 3 from all initial constructions (13 values x 5 construction ways (incl. small and large slack capacity) + inconsistent sign/magnitude requests), ~75 actions per state; generators: arbitrary over all byte strings {00,01,ff}^<=8, quickcheck (size<=8, seed<1024), shrink of the pool, serde_json sequences {0,1,2^32-1}^<=6 x signs, rand word streams {0,1,2^31,2^32-1}^<=3 x bit sizes/bounds; constructors in 13 radices x zero paddings up to 130 digits; G-results: (Dense(S5,3)+16 longer)^2 x 25 BigUint operator forms and 57^2 signed values x 27 BigInt forms, every result observed",
     bounds_thorough: "BigInt and BigUint models: depth 5 (digit cap 20; ~4.6*10^7 states, ~8 min, 4.3 GB); generators: arbitrary over {00,01,ff}^<=10, quickcheck (size<=8, seed<4096), serde_json sequences ^<=8, rand word streams ^<=5",
     hang_secs: 120,
     probes: None,
@@ -1409,6 +1409,140 @@ fn run_generators(ctx: &mut Ctx) {
     }
 }
 
+/// "the result of any operation": results of every binary operator form on a dense product must be
+/// indistinguishable from a canonical object of the value they denote
+fn run_results(ctx: &mut Ctx) {
+    if !ctx.space("G-results") {
+        return;
+    }
+    let refs_i: Vec<(Int, BigInt)> = ref_points().into_iter().map(|r| (r.clone(), bi_int(&r))).collect();
+    let refs_u: Vec<(Nat, BigUint)> = operand_pool_nat().into_iter().map(|r| (r.clone(), bu_nat(&r))).collect();
+    let mut mags: Vec<Vec<u64>> = alpha::dense(&alpha::SIGMA5, 3);
+    for l in [4usize, 5, 6, 9] {
+        mags.push(alpha::lcg_digits(l, 2));
+        mags.push(vec![alpha::M; l]);
+        let mut v = vec![0u64; l];
+        v[l - 1] = 1;
+        mags.push(v.clone());
+        v[0] = 1;
+        mags.push(v);
+    }
+    let us: Vec<BigUint> = mags.iter().map(|d| bu(d)).collect();
+    type FU = (&'static str, fn(&BigUint, &BigUint) -> BigUint);
+    let forms_u: Vec<FU> = vec![
+        ("&a+&b", |a, b| a + b),
+        ("a+&b", |a, b| a.clone() + b),
+        ("&a+b", |a, b| a + b.clone()),
+        ("a+b", |a, b| a.clone() + b.clone()),
+        ("&a-&b", |a, b| a - b),
+        ("a-&b", |a, b| a.clone() - b),
+        ("&a-b", |a, b| a - b.clone()),
+        ("a-b", |a, b| a.clone() - b.clone()),
+        ("&a*&b", |a, b| a * b),
+        ("a*b", |a, b| a.clone() * b.clone()),
+        ("&a/&b", |a, b| a / b),
+        ("a/b", |a, b| a.clone() / b.clone()),
+        ("a/&b", |a, b| a.clone() / b),
+        ("&a%&b", |a, b| a % b),
+        ("a%b", |a, b| a.clone() % b.clone()),
+        ("&a%b", |a, b| a % b.clone()),
+        ("&a&&b", |a, b| a & b),
+        ("a&b", |a, b| a.clone() & b.clone()),
+        ("&a|&b", |a, b| a | b),
+        ("a|b", |a, b| a.clone() | b.clone()),
+        ("&a^&b", |a, b| a ^ b),
+        ("a^b", |a, b| a.clone() ^ b.clone()),
+        ("a^&b", |a, b| a.clone() ^ b),
+        ("gcd", |a, b| num_integer::Integer::gcd(a, b)),
+        ("lcm", |a, b| num_integer::Integer::lcm(a, b)),
+    ];
+    for (i, a) in us.iter().enumerate() {
+        if !ctx.mine(i as u64) {
+            continue;
+        }
+        for (j, b) in us.iter().enumerate() {
+            ctx.inner(j as u64);
+            ctx.case();
+            for (name, f) in &forms_u {
+                ctx.calls(1);
+                if let Ok(r) = guard(|| f(a, b)) {
+                    ctx.compared(1);
+                    let v = nat_of(&r);
+                    if v.len() >= 2 || raw_biguint(&r).0.len() != v.len() {
+                        ctx.nontrivial(1);
+                    }
+                    if let Some(w) = observe_uint(&r, &v, &refs_u) {
+                        ctx.viol(format!("result BigUint {} a={} b={}", name, hexs(&mags[i]), hexs(&mags[j])), &w, vec![name.to_string()], "canonical value".into(), w.clone());
+                    }
+                }
+            }
+        }
+        ctx.sample(|| format!("a={} with every b of {} magnitudes through {} BigUint operator forms: every result observed against a canonical object", hexs(&mags[i]), us.len(), forms_u.len()));
+    }
+    // BigInt: both signs of a smaller family
+    let imags: Vec<Vec<u64>> = alpha::dense(&alpha::SIGMA5, 2).into_iter().chain([vec![0, 0, 1], vec![alpha::M, alpha::M, alpha::M], vec![1, 0, 1], vec![0, 0, 0, 1]]).collect();
+    let mut is: Vec<BigInt> = Vec::new();
+    for d in &imags {
+        is.push(BigInt::from(bu(d)));
+        if !d.is_empty() {
+            is.push(-BigInt::from(bu(d)));
+        }
+    }
+    type FI = (&'static str, fn(&BigInt, &BigInt) -> BigInt);
+    let forms_i: Vec<FI> = vec![
+        ("&a+&b", |a, b| a + b),
+        ("a+&b", |a, b| a.clone() + b),
+        ("&a+b", |a, b| a + b.clone()),
+        ("a+b", |a, b| a.clone() + b.clone()),
+        ("&a-&b", |a, b| a - b),
+        ("a-&b", |a, b| a.clone() - b),
+        ("&a-b", |a, b| a - b.clone()),
+        ("a-b", |a, b| a.clone() - b.clone()),
+        ("&a*&b", |a, b| a * b),
+        ("a*b", |a, b| a.clone() * b.clone()),
+        ("&a/&b", |a, b| a / b),
+        ("a/b", |a, b| a.clone() / b.clone()),
+        ("&a%&b", |a, b| a % b),
+        ("a%b", |a, b| a.clone() % b.clone()),
+        ("div_floor", |a, b| num_integer::Integer::div_floor(a, b)),
+        ("mod_floor", |a, b| num_integer::Integer::mod_floor(a, b)),
+        ("&a&&b", |a, b| a & b),
+        ("a&b", |a, b| a.clone() & b.clone()),
+        ("a&&b", |a, b| a.clone() & b),
+        ("&a|&b", |a, b| a | b),
+        ("a|b", |a, b| a.clone() | b.clone()),
+        ("a|&b", |a, b| a.clone() | b),
+        ("&a^&b", |a, b| a ^ b),
+        ("a^b", |a, b| a.clone() ^ b.clone()),
+        ("a^&b", |a, b| a.clone() ^ b),
+        ("gcd", |a, b| num_integer::Integer::gcd(a, b)),
+        ("lcm", |a, b| num_integer::Integer::lcm(a, b)),
+    ];
+    for (i, a) in is.iter().enumerate() {
+        if !ctx.mine((1 << 20) + i as u64) {
+            continue;
+        }
+        for (j, b) in is.iter().enumerate() {
+            ctx.inner(j as u64);
+            ctx.case();
+            for (name, f) in &forms_i {
+                ctx.calls(1);
+                if let Ok(r) = guard(|| f(a, b)) {
+                    ctx.compared(1);
+                    let v = int_of(&r);
+                    if v.mag.len() >= 2 {
+                        ctx.nontrivial(1);
+                    }
+                    if let Some(w) = observe_int(&r, &v, &refs_i) {
+                        ctx.viol(format!("result BigInt {} a={} b={}", name, int_of(a).to_hex(), int_of(b).to_hex()), &w, vec![name.to_string()], "canonical value".into(), w.clone());
+                    }
+                }
+            }
+        }
+    }
+    ctx.sample(|| format!("{} signed values squared through {} BigInt operator forms", is.len(), forms_i.len()));
+}
+
 /// comparison agrees with numerical order on every ordered pair of a signed dense family
 fn run_order(ctx: &mut Ctx) {
     if !ctx.space("G-order") || !ctx.mine(0) {
@@ -1473,6 +1607,7 @@ fn run_order(ctx: &mut Ctx) {
 fn body(ctx: &mut Ctx) {
     run_hist(ctx);
     run_generators(ctx);
+    run_results(ctx);
     run_order(ctx);
 }
 
